@@ -67,6 +67,9 @@ SCHEMA = {
     'AlignmentSegmentsWithResolvedConflicts': {'segments': LIST(SEG)},
     'MultipleAlignmentResultRowsMessage': {'messages': LIST(OBJ('AlignmentResultRowMessage'))},
     'InitialAlignmentMessage': {'data': OBJ('InitialAlignment', 'EmptyInitialAlignment', 'CorrelationResult')},
+    'CorrelationResultMessage': {'initialAlignment': OBJ('InitialAlignment', 'EmptyInitialAlignment'), 'refinedAlignment': OBJ('CorrelationResult'), 'index': INT},
+    'AlignmentResultRowMessage': {'reference': OMAP, 'query': OMAP, 'alignment': OBJ('AlignmentResultRow'),
+                                  'correlation': OBJ('InitialAlignment', 'EmptyInitialAlignment'), 'index': INT},
     '_WorkflowCoordinator': {'peaksSelector': OBJ('PeaksSelector'), 'dispatcher': OBJ('Dispatcher'), 'aligner': OBJ('Aligner'), 'args': OBJ('Args'),
                              'primaryGenerator': OBJ('SequenceGenerator'), 'secondaryGenerator': OBJ('SequenceGenerator')},
     '_MultiPassWorkflowCoordinator': {'xmapReader': OBJ('XmapReader')},
@@ -99,6 +102,21 @@ def _inv_empty_segment(e, o):
     return z3.And(o.positions.len == 0, o.alignedPositions.len == 0, o.segmentScore == 0)
 
 
+def _inv_optical_map(e, o):
+    """a map has at least one label, its label coordinates ascend and are not negative (the CMAP reader skips label-less molecules and sorts the coordinates - bounded,
+    C17; every OpticalMap(...) constructed in verified code - trim, the second-pass fragments - is an obligation at that constructor call)"""
+    import z3
+    from pyvc.kinds import MP
+    P = o.positions
+    arr = P.v.arrs[0]
+    T, U = z3.Int('ciT'), z3.Int('ciU')
+    return z3.And(P.len >= 1, z3.Select(arr, P.off) >= 0, z3.ForAll([T, U], z3.Implies(z3.And(P.off <= T, T <= U, U < P.off + P.len), z3.Select(arr, T) <= z3.Select(arr, U)),
+                                        patterns=[MP(z3.Select(arr, T), z3.Select(arr, U))]))
+
+
 # (invariant, triggers): the axiom is instantiated for an object only where one of the trigger terms (a field the invariant constrains) occurs
 CLASS_INVARIANTS = {'AlignmentSegment': (_inv_segment, lambda e, o: [o.alignedPositions.len]),
-                    'EmptyAlignmentSegment': (_inv_empty_segment, lambda e, o: [o.positions.len, o.alignedPositions.len, o.segmentScore])}
+                    'EmptyAlignmentSegment': (_inv_empty_segment, lambda e, o: [o.positions.len, o.alignedPositions.len, o.segmentScore]),
+                    'OpticalMap': (_inv_optical_map, lambda e, o: [o.positions.len])}
+# classes without an __init__ of their own (dataclasses): the invariant is an obligation at every constructor call in verified code
+CONSTRUCTOR_SITE_INVARIANTS = {'OpticalMap'}
